@@ -302,6 +302,9 @@ def sweep_cases():
         yield minimal(auth={"SuitAuthentication0": auth_block(unprot=h)})
     for n in (0, 1, 64, 96, 132, 255, 256):
         yield minimal(auth={"SuitAuthentication0": auth_block(sig=_hex(n, 0x30))})
+    # many blocks, numbered the way parse shows them (1..12), and free-form / out-of-order suffixes: description order is the wire order
+    yield minimal(auth={f"SuitAuthentication{i}": auth_block(sig=_hex(4, i)) for i in range(1, 13)})
+    yield minimal(auth={f"SuitAuthentication{sfx}": auth_block(sig=_hex(4, i + 1)) for i, sfx in enumerate(["b2", "a1", "10", "9", "", "Z"])})
     for c in R.CWT_CLAIMS:
         if c == "CW ID":
             vals = [_hex(n, 0x77) for n in (0, 1, 16, 24)]
